@@ -934,7 +934,7 @@ impl<B: Flav> SliceWorld<B> {
                 // C13: the corresponding std::io operation on a twin stream with an ordinary buffer of the same length
                 let win = if addr <= plen { if exact { count } else { (plen - addr).min(count) } } else { 0 };
                 let twin = if addr <= plen && (!exact || addr.saturating_add(count) <= plen) { self.streams.rds.get_mut(&id).and_then(|r| r.std_twin(win, exact)) } else { None };
-                let RdRes { res, consumed, left, failed_fd } = self.streams.read_into(id, |src| {
+                let RdRes { res, consumed, left, failed_fd, pos } = self.streams.read_into(id, |src| {
                     if exact { s.read_exact_volatile_from(addr, src, count).map(|_| count) } else { s.read_volatile_from(addr, src, count) }.map_err(|e| verr(&e))
                 });
                 // oracle (C13/C14): bytes consumed from the reader are exactly the bytes now stored at
@@ -963,7 +963,8 @@ impl<B: Flav> SliceWorld<B> {
                 if let Some(t) = &twin {
                     rec.note("std_twin_reads");
                     let same = match &res {
-                        Ok(n) => t.ok && (exact || *n == t.n) && consumed == t.bytes,
+                        // same count, same bytes and (cursors) the same stream position as std
+                        Ok(n) => t.ok && (exact || *n == t.n) && consumed == t.bytes && t.pos.map(|p| p == pos).unwrap_or(true),
                         Err(e) => !t.ok && e.contains(&format!("io k={}", t.err_kind)),
                     };
                     if !same {
